@@ -167,6 +167,7 @@ class Sim:
         self.alloc_expected = []   # multiset of allocator ids for A+ events
         self.outcome = None
         self.leaf_tok_stopped = {}
+        self.flags = set()
         self.destroy_hooks = []    # run when the outer operation state is destroyed (coroutine frames)
 
     def emit(self, s):
@@ -833,6 +834,53 @@ class WhenAll(Node):
                 self.done("v", list(self.vals))
 
 
+class WhenAny(WhenAll):
+    """doc: 'completes when any of the input senders completes, the rest are cancelled. The result of the algorithm
+    is always the completion result of the first sender to complete, even if done or error. Lagging senders may
+    complete with set_value in which case their results are discarded.'
+
+    The implementation is when_all over children whose value is stored (first value wins) and turned into done; it
+    therefore reports a *lagging* error instead of an earlier value/done, and a lagging value instead of an earlier
+    done.  The model follows the documentation and flags the scenarios in which the two differ so that the checker
+    can attribute the disagreement to that (recorded) deviation and to nothing else."""
+
+    def connect(self, env):
+        # children are connected lazily (inside let_value successors) when the operation is started
+        self.env = env
+        self.src = Tok()
+
+    def start(self):
+        cenv = self.env.with_(tok=self.src)
+        for k in reversed(self.kids):
+            k.connect(cenv)
+        self.first = None
+        self.stored = None       # implementation shadow: first value
+        self.first_err = None    # implementation shadow: first error seen by the inner when_all
+        super().start()
+
+    def child_done(self, slot, ch, pack):
+        if self.first is None:
+            self.first = (ch, pack)
+        if ch == "v" and self.stored is None:
+            self.stored = pack
+        if ch == "e" and self.first_err is None:
+            self.first_err = pack
+        self.src.request()
+        self.element_complete()
+
+    def element_complete(self):
+        self.ref -= 1
+        if self.ref == 0:
+            self.env.tok.unregister(self.h)
+            if self.env.tok.requested or self.first_err is None:
+                impl = ("v", self.stored) if self.stored is not None else ("d", None)
+            else:
+                impl = ("e", self.first_err)
+            if impl[0] != self.first[0] or (impl[0] != "d" and impl[1] is not self.first[1]):
+                self.sim.flags.add("when_any-deviation")
+            self.done(*self.first)
+
+
 class StopWhen(Node):
     def __init__(self, sim, spec, parent, slot):
         super().__init__(sim, spec, parent, slot)
@@ -944,7 +992,7 @@ CLASSES = {
     "done_as_optional": DoneAsOptional, "into_variant": IntoVariant, "allocate": Allocate,
     "any_sender": AnySender,
     "lvw_stop_source": LVWStopSource, "lvw_stop_token": LVWStopToken, "let_value_with": LetValueWith,
-    "when_all": WhenAll, "stop_when": StopWhen,
+    "when_all": WhenAll, "when_any": WhenAny, "stop_when": StopWhen,
     "retry_when": RetryWhen, "repeat_effect_until": RepeatEffectUntil,
 }
 
